@@ -1346,3 +1346,46 @@ def r6(cx):
 
 
 RS.explanation += ' Added after the audit: a bracket written to the regex is never empty (R6).'
+
+
+# ---------------------------------------------------------------------------------------
+# added after the independent report C04w3 #3 (fix a6e85c3: `"$@"` joined with an unquoted separator)
+@RS.rule('C04.R4b', 'K-EFFECT', 'a character the shell inserts inside a quoted string is quoted: the separator that joins the fields of "$@" into '
+         'one field (case pattern, trim pattern) takes its is_quoted attribute from the quoting of the adjoining fields - it is never '
+         'the constant `false`, which would hand it to the pattern compiler as an active `?` / `*` / `[`')
+def r4b(cx):
+    F = cx.F
+    root = 'yash_semantics::expansion::phrase::Phrase::ifs_join'
+    ATTR = 'yash_env::semantics::expansion::attr::AttrChar'
+    bodies = F.logical(root)
+    cx.require(bodies, 'Phrase::ifs_join not found')
+    built, computed = 0, 0
+    where = None
+    for body in bodies:
+        cx.fn(body.fn)
+        du = Q.DefUse(body)
+        for blk, j, st in body.stmts():
+            if st['k'] != 'assign':
+                continue
+            rv = st['rv']
+            if rv['k'] == 'agg' and str(rv.get('adt') or '').endswith('attr::AttrChar'):
+                built += 1
+                where = where or body.loc(st)
+                fields = rv.get('fields') or []
+                ops = rv.get('ops') or []
+                for name, o in zip(fields, ops):
+                    if name == 'is_quoted' and 'c' not in o:
+                        computed += 1
+        for b, j, s, kind, f in Q.field_writes(body, ATTR, 'is_quoted'):
+            if kind == 'assign' and not (s['rv']['k'] == 'use' and 'c' in s['rv']['o']):
+                computed += 1
+    cx.require(built >= 1, 'Phrase::ifs_join no longer builds the separator character (anchor moved)')
+    cx.site('Phrase::ifs_join: separator built %d time(s); is_quoted computed from the adjoining fields: %s' % (built, computed > 0))
+    if not computed:
+        cx.violation(root, 'separator-never-quoted', 'the separator that joins several fields into one is always built unquoted: for `"$@"` '
+                     '(whose fields are wrapped in quoting marks one by one) it lands between a closing and an opening quote and reaches the '
+                     'pattern compiler as an active character - `set -- a b; IFS=?; case axb in ("$@")` matches, `${v#"$@"}` removes axb, '
+                     'while "$*" is literal', loc=where)
+
+
+RS.explanation += ' The separator joining the fields of a quoted $@ is quoted (R4b).'
